@@ -56,6 +56,7 @@ type UU struct {
 	Req   int32  `json:"req"`
 	Conts []Cont `json:"conts,omitempty"`
 	Jumbo int    `json:"jumbo,omitempty"` // this many extra offline containers (size classes of C02/C03)
+	QOnly int    `json:"qOnly,omitempty"` // this many further unit-usage entries that only ask for quota (no used-unit container)
 }
 
 type Op struct {
@@ -199,6 +200,7 @@ type Result struct {
 	Body     []byte
 	Location string
 	Resp     *models.ChfConvergedChargingChargingDataResponse
+	ReqWire  *models.ChfConvergedChargingChargingDataRequest // the request as sent (Req carries the harness's rating group numbers)
 	Sess     *sess
 	Sub      *subState
 	Req      *models.ChfConvergedChargingChargingDataRequest
@@ -335,6 +337,11 @@ func (w *World) buildUnits(op Op, se *sess, withConts bool) ([]models.ChfConverg
 			}
 		}
 		out = append(out, mu)
+		if withConts {
+			for i := 0; i < u.QOnly; i++ {
+				out = append(out, models.ChfConvergedChargingMultipleUnitUsage{RatingGroup: act(supi, u.RG), RequestedUnit: &models.RequestedUnit{TotalVolume: 1}, UPFID: "upf-q"})
+			}
+		}
 	}
 	return out, recs, online
 }
@@ -400,6 +407,7 @@ func (w *World) Exec(op Op) *Result {
 		code, rb, hd := doHTTP("POST", prefix+"/chargingdata", body, nil)
 		se.t1 = time.Now()
 		res.Status, res.Body, res.Location, res.Req, res.Path = code, rb, hd.Get("Location"), logicalReq(st.supi, &req), prefix+"/chargingdata"
+		res.ReqWire = &req
 		if code == http.StatusCreated {
 			st.notify = npath
 			se.ref, se.live, se.createReq = refOf(res.Location), true, req
@@ -423,6 +431,7 @@ func (w *World) Exec(op Op) *Result {
 		path := prefix + "/chargingdata/" + url.PathEscape(se.ref) + "/" + op.K // the reference is one path segment
 		code, rb, hd := doHTTP("POST", path, body, nil)
 		res.Status, res.Body, res.Location, res.Req, res.Path = code, rb, hd.Get("Location"), logicalReq(st.supi, &req), path
+		res.ReqWire = &req
 		if code >= 200 && code < 300 {
 			se.conts = append(se.conts, recs...)
 			for rg, vol := range online {
